@@ -392,6 +392,10 @@ class UB1:
             st["strlen(%s)" % key(s["c"][0])] = (1, 2 ** 62)
         elif truth and s["k"] == "UnaryOperator" and s["op"] == "*":
             st["strlen(%s)" % key(s["c"][0])] = (1, 2 ** 62)
+        if truth and s["k"] == "DeclRefExpr":
+            pre = "?imp:%s:" % s["n"]
+            for k2 in [k2 for k2 in st if k2.startswith(pre)]:
+                st.setdefault(k2[len(pre):], st[k2])
         if truth:
             if cur == (0, 0):
                 return False
@@ -582,6 +586,7 @@ class UB1:
                 else:
                     merged = {}
                     v = visits.get(sid, 0)
+                    self._implications(old, ns, merged)
                     for k2 in old:
                         if k2 in ns:
                             j = join(old[k2], ns[k2])
@@ -613,6 +618,27 @@ class UB1:
                 if e not in self.stmt_state:
                     self.stmt_state[e] = dict(st)
                 self.transfer(n, st)
+
+    def _implications(self, a, b, merged):
+        """Facts that hold on one side of a join only, where the two sides differ in the truth of a boolean local: kept as
+        `flag => fact` (`?imp:<flag>:<fact key>`), re-installed when a later branch tests the flag true
+        (`bool in_range = ..; if (in_range && x < y) break; ... if (in_range) { here x >= y }`)."""
+        flags = [nm for nm, t in self.local_types.items() if (t or "").replace("const ", "").strip() in ("bool", "_Bool")
+                 and nm not in self.addr_taken]
+        for fl in flags:
+            for hot, cold in ((a, b), (b, a)):
+                if hot.get(fl) == (1, 1) and cold.get(fl) == (0, 0):
+                    for k2, v2 in hot.items():
+                        if k2.startswith("?rel:") and k2 not in cold and not mentions(k2, fl):
+                            merged["?imp:%s:%s" % (fl, k2)] = v2
+        # an implication already recorded on one side survives if the other side satisfies it (flag false, or the fact itself)
+        for x, y in ((a, b), (b, a)):
+            for k2, v2 in x.items():
+                if not k2.startswith("?imp:") or k2 in y or k2 in merged:
+                    continue
+                _, fl, fact = k2.split(":", 2)
+                if y.get(fl) == (0, 0) or (fact in y and y[fact][0] >= v2[0] and y[fact][1] <= v2[1]):
+                    merged[k2] = v2
 
     # ------------------------------------------------------------------
     def state_at(self, n):
